@@ -49,6 +49,10 @@ def run(tier, seed):
             vc.BASE_FLAGS[:] = saved
         reps += repsd
         viol += viold
+    # the step function under every delivery order and every legal GVT announcement, sanitized: 40-byte payloads (really freed
+    # buffers) included (scenario e_mem3)
+    preps, pm, pviol = hc.proc_part(PID, d, tier, san=True, part="small")
+    viol += pviol
     m = vc.merge_rsched(reps)
     # ---- sequential enumerators on sanitized builds ----
     jobs = []
@@ -77,6 +81,7 @@ def run(tier, seed):
                            "grammar), C12/C05/C13 (allocator, checkpoint, fossil), C18 (numerical library on boundary generator states) and "
                            "C19 (topology) executed on builds of the core with -fsanitize=address,undefined -fno-sanitize-recover; a report "
                            "of either sanitizer ends the execution and is the violation; non-trivial = whole-runtime execution with a rollback")
+    hc.add_proc(cov, pm, preps)
     cov["sequential_enumerations"] = {"evaluations": tot["evaluations"], "runs": len(sreps)}
     cov["evaluations"] += tot["evaluations"]
     vc.write_evidence(PID, tier, "model_checking", cov,
@@ -93,5 +98,7 @@ def replay(path):
     if path.endswith(".json"):
         print(open(path).read()[:2000])
         return 1
+    if hc.is_proc_replay(path):
+        return vc.rsched_replay(hc.build_proc(d, san=True), path)
     ranks = 2 if os.path.basename(path).startswith("r2") else 1
     return vc.rsched_replay(hc.build(d, san=True, ranks=ranks), path)
